@@ -948,6 +948,8 @@ def call_method(I, obj, name, args, kwargs):
                 return concat_strs(I, parts)
         if name == "format":
             return opaque_str(I, "str.format")
+    if isinstance(obj, SV) and isinstance(obj.ty, TSeq) and obj.ty.kind == "dict-items" and name == "items" and not args:
+        return obj
     h = I.E.externals.get("method")
     if h is not None:
         r = h(I, obj, name, args, kwargs)
